@@ -33,7 +33,7 @@ NEEDED = {
  'C02-5': 'PDA-flavoured transfer as a history action (C02 + C16)',
  'C03-5': 'root RE: a scheduled Token-2022 fee change with leader_schedule_epoch = epoch + 1 (as on a real cluster)',
  'C04-6': 'reference for venue-backed (Kamino/Solend/Drift) oracles; venue sweep in C09; venue-held collateral states in C04',
- 'C05-4': 'look-alike insurance vault offered to liquidate (C08 substitutes)',
+ 'C05-4': 'look-alike insurance vault offered to liquidate (C08 substitutes; then as a probe per liquidatable configuration in C05)',
  'C06-4': 'cooperating foreign group whose fee settings differ (C08), so that the wrong group is observable',
  'C07-4': 'reduce-only collateral in the bankruptcy sweep',
  'C07-5': 'Token-2022 insurance mint whose maximum_fee caps the fee (large covers)',
